@@ -1,7 +1,7 @@
 #!/bin/bash
 # usage: tools/run_all.sh [quick|thorough]   runs every registered check, prints one line each, validates the evidence files
 tier=${1:-quick}
-cd /verif
+cd "$(dirname "$(dirname "$(readlink -f "$0")")")"
 fail=0
 for id in $(python3 -c "import json; print(' '.join(c['property_id'] for c in json.load(open('MANIFEST.json'))['checks']))"); do
   out=$(./check $id --tier $tier 2>&1); rc=$?
@@ -11,9 +11,9 @@ done
 python3-vt - <<'PY'
 import json,jsonschema,glob
 sch=json.load(open('/root/.vp/EVIDENCE.schema.json'))
-jsonschema.validate(json.load(open('/verif/MANIFEST.json')), json.load(open('/root/.vp/MANIFEST.schema.json')))
+jsonschema.validate(json.load(open('MANIFEST.json')), json.load(open('/root/.vp/MANIFEST.schema.json')))
 bad=0
-for f in sorted(glob.glob('/verif/evidence/C*.json')):
+for f in sorted(glob.glob('evidence/C*.json')):
     try: jsonschema.validate(json.load(open(f)), sch)
     except Exception as e: print('INVALID', f, str(e)[:200]); bad+=1
 print('evidence files valid' if not bad else '%d invalid evidence files'%bad)
